@@ -6,7 +6,9 @@ CONSTANTS
   PruneBeforeWrite = FALSE
   LooseBeforePacked = FALSE
   StaleSnapshot = FALSE
+  StaleShortcut = FALSE
 INVARIANT CasSound
+INVARIANT ShortcutSound
 INVARIANT AddSound
 INVARIANT NoLockLeft
 VIEW View
